@@ -42,6 +42,32 @@ def allFiniteMems : List (List Nat × JVal) → Bool
   | (_, v) :: kvs => AllFinite v && allFiniteMems kvs
 end
 
+/-! ## well-formed values: what a document of the library can hold -/
+
+/-- `uint` below `2^64`, `sint` in `[-2^63, 0)` (a non-negative integer is stored as `uint`), a 64-bit pattern -/
+def numWF : JNum → Bool
+  | .uint n => decide (n < 2 ^ 64)
+  | .sint n => decide (-(2 ^ 63 : Int) ≤ n) && decide (n < 0)
+  | .real bits => decide (bits < 2 ^ 64)
+
+def bytesWF (s : List Nat) : Bool := s.all (fun b => decide (b < 256))
+
+mutual
+/-- numbers in range, string and key contents are bytes -/
+def WF : JVal → Bool
+  | .num n => numWF n
+  | .str s => bytesWF s
+  | .arr xs => wfList xs
+  | .obj kvs => wfMems kvs
+  | _ => true
+def wfList : List JVal → Bool
+  | [] => true
+  | x :: xs => WF x && wfList xs
+def wfMems : List (List Nat × JVal) → Bool
+  | [] => true
+  | (k, v) :: kvs => bytesWF k && WF v && wfMems kvs
+end
+
 def litNull : List Nat := [0x6E, 0x75, 0x6C, 0x6C]
 def litTrue : List Nat := [0x74, 0x72, 0x75, 0x65]
 def litFalse : List Nat := [0x66, 0x61, 0x6C, 0x73, 0x65]
